@@ -980,3 +980,242 @@ Example translate_double_caret :
   translate (bs "a^^b") false false = bs "a(?:[^\w\d\._%-])^b"
   /\ regex_text (toks (bs "a^^b")) false false = bs "a(?:[^\w\d\._%-])(?:[^\w\d\._%-])b".
 Proof. split; vm_compute; reflexivity. Qed.
+
+(* ====================================================================================== *)
+(* Part 8 — executable reference, dispatch on the mask, witnesses                           *)
+(* ====================================================================================== *)
+
+Theorem ref_matchb_spec a url host hs :
+  (forall h, pa_left a = LHost h -> h <> []) ->
+  (ref_matchb a url host hs = true <-> ref_match a url host hs).
+Proof.
+  intros Hh. unfold ref_matchb, ref_match. destruct (pa_left a) as [| |h] eqn:E.
+  - apply mb_somewhere_spec.
+  - apply mb_spec.
+  - specialize (Hh h eq_refl). rewrite existsb_exists. split.
+    + intros (o & _ & Ho). apply andb_true_iff in Ho as [A B]. exists o. split.
+      * apply anchor_atb_spec; assumption.
+      * apply mb_spec. exact B.
+    + intros (o & A & B). exists o. split.
+      * apply in_seq. pose proof (anchor_at_bound _ _ _ _ _ Hh A). lia.
+      * apply andb_true_iff. split; [apply anchor_atb_spec; assumption|apply mb_spec; exact B].
+Qed.
+
+(* the seven pattern bits of NetworkFilterMask (generated from the source) are independent:
+   reading the shape of a mask built from a shape gives the shape back, for all 128 shapes *)
+Theorem mask_bits_independent sh : shape_of_mask (mask_of_shape sh) = sh.
+Proof. destruct sh as [[] [] [] [] [] [] []]; vm_compute; reflexivity. Qed.
+
+(* ---- witnesses ---- *)
+Definition no_re_ok : str -> bool := fun _ => true.
+Definition no_re_match : str -> str -> bool := fun _ _ => false.
+Definition cp_line (line url host : str) : bool :=
+  let pf := parse_line line in
+  check_pattern_sh no_re_ok no_re_match (pf_shape pf) (fs_of (pf_filter pf)) (pf_hostname pf)
+                   {| r_url := url; r_host := host |}.
+
+(* F22: a right '|' after a bare ||host is parsed like '^': every URL on the host matches *)
+Lemma host_right_pipe_witness :
+  let line := bs "||ads.net|" in
+  let url := bs "https://foo.com.ads.net/ad.foo" in
+  let host := bs "foo.com.ads.net" in
+  host_right_pipe line = true /\ nondegenerate_text line = true /\
+  wf_request {| r_url := url; r_host := host |} 8 /\
+  cp_line line url host = true /\
+  ~ ref_match (ast_of_text line) url host 8.
+Proof.
+  cbv zeta. split; [vm_compute; reflexivity|]. split; [vm_compute; reflexivity|].
+  split.
+  { split; [vm_compute; reflexivity|]. split; [vm_compute; reflexivity|]. split; [|vm_compute; reflexivity].
+    right. vm_compute. eexists. eexists. split; reflexivity. }
+  split; [vm_compute; reflexivity|].
+  intros H. apply ref_matchb_spec in H; [vm_compute in H; discriminate|].
+  intros h E. vm_compute in E. inversion E. discriminate.
+Qed.
+
+(* `||h^`: ends_with(h) without a label-start test *)
+Lemma suffix_mid_label_witness :
+  let line := bs "||ads.net^" in
+  let url := bs "https://ads.net.xads.net/x" in
+  let host := bs "ads.net.xads.net" in
+  let pf := parse_line line in
+  let r := {| r_url := url; r_host := host |} in
+  nondegenerate_text line = true /\ host_right_pipe line = false /\
+  wf_fields (pf_shape pf) (pf_filter pf) (pf_hostname pf) = true /\
+  nondegenerate_fields (pf_shape pf) (pf_filter pf) (pf_hostname pf) = true /\
+  past_eqb (ast_of_fields (pf_shape pf) (pf_filter pf) (pf_hostname pf)) (ast_of_text line) = true /\
+  wf_request r 8 /\
+  suffix_mid_label_case (pf_shape pf) (pf_filter pf) (pf_hostname pf) r = true /\
+  cp_line line url host = true /\
+  ~ ref_match (ast_of_text line) url host 8.
+Proof.
+  cbv zeta. repeat (split; [vm_compute; reflexivity|]).
+  split.
+  { split; [vm_compute; reflexivity|]. split; [vm_compute; reflexivity|]. split; [|vm_compute; reflexivity].
+    right. vm_compute. eexists. eexists. split; reflexivity. }
+  split; [vm_compute; reflexivity|]. split; [vm_compute; reflexivity|].
+  intros H. apply ref_matchb_spec in H; [vm_compute in H; discriminate|].
+  intros h E. vm_compute in E. inversion E. discriminate.
+Qed.
+
+(* the request hostname occurs in the URL before the host (here inside "https"): the remainder is
+   cut after the wrong occurrence *)
+Lemma host_in_url_prefix_witness :
+  let line := bs "||t/x" in
+  let url := bs "https://t/x" in
+  let host := bs "t" in
+  nondegenerate_text line = true /\ host_right_pipe line = false /\
+  find_sub host url = Some 1%nat /\
+  cp_line line url host = false /\
+  ref_match (ast_of_text line) url host 8.
+Proof.
+  cbv zeta. repeat (split; [vm_compute; reflexivity|]).
+  apply ref_matchb_spec; [|vm_compute; reflexivity].
+  intros h E. vm_compute in E. inversion E. discriminate.
+Qed.
+
+(* the hypotheses of check_pattern_ref are satisfiable on a non-trivial rule and request: a
+   hostname-anchored regex rule, with a regex oracle that implements the standard semantics *)
+Example check_pattern_ref_example :
+  let line := bs "||ads.net^banner*.js" in
+  let pf := parse_line line in
+  let sh := pf_shape pf in
+  let r := {| r_url := bs "https://xads.net.ads.net/banner/160x600.js?x"; r_host := bs "xads.net.ads.net" |} in
+  let re_match := fun (_ : str) s => search (s_la sh) (s_ra sh) (body_of (pf_filter pf)) s in
+  wf_fields sh (pf_filter pf) (pf_hostname pf) = true /\
+  nondegenerate_fields sh (pf_filter pf) (pf_hostname pf) = true /\
+  wf_request r 8 /\
+  suffix_mid_label_case sh (pf_filter pf) (pf_hostname pf) r = false /\
+  (forall f, pf_filter pf = Some f -> s_rx sh = true ->
+             re_std no_re_ok re_match (translate f (s_la sh) (s_ra sh)) (s_la sh) (s_ra sh) (toks f)) /\
+  check_pattern_sh no_re_ok re_match sh (fs_of (pf_filter pf)) (pf_hostname pf) r = true.
+Proof.
+  cbv zeta. split; [vm_compute; reflexivity|]. split; [vm_compute; reflexivity|].
+  split.
+  { split; [vm_compute; reflexivity|]. split; [vm_compute; reflexivity|]. split; [|vm_compute; reflexivity].
+    right. vm_compute. eexists. eexists. split; reflexivity. }
+  split; [vm_compute; reflexivity|]. split; [|vm_compute; reflexivity].
+  intros f Ef _. split; [reflexivity|]. intros s _.
+  vm_compute in Ef. inversion Ef; subst f. reflexivity.
+Qed.
+
+(* ====================================================================================== *)
+(* Part 9 — from the text of a rule                                                         *)
+(* ====================================================================================== *)
+
+Lemma list_eqb_ptok_eq a : forall b, list_eqb ptok_eqb a b = true -> a = b.
+Proof.
+  induction a as [|x a IH]; intros [|y b] H; cbn in H; try discriminate; [reflexivity|].
+  apply andb_true_iff in H as [H1 H2]. rewrite (IH b H2). f_equal.
+  destruct x, y; cbn in H1; try discriminate; try reflexivity. apply N.eqb_eq in H1. congruence.
+Qed.
+
+Lemma past_eqb_eq a b : past_eqb a b = true -> a = b.
+Proof.
+  destruct a as [la pa ra], b as [lb pb rb]. unfold past_eqb. cbn [pa_left pa_body pa_right].
+  intros H. apply andb_true_iff in H as [H H3]. apply andb_true_iff in H as [H1 H2].
+  apply list_eqb_ptok_eq in H2. apply eqb_prop in H3. subst. f_equal.
+  destruct la, lb; cbn in H1; try discriminate; try reflexivity. apply str_eqb_eq in H1. congruence.
+Qed.
+
+(* the three facts about the parsed fields of a line that the parser has to establish *)
+Definition parse_ok (line : str) : bool :=
+  let pf := parse_line line in
+  wf_fields (pf_shape pf) (pf_filter pf) (pf_hostname pf)
+  && nondegenerate_fields (pf_shape pf) (pf_filter pf) (pf_hostname pf)
+  && past_eqb (ast_of_fields (pf_shape pf) (pf_filter pf) (pf_hostname pf)) (ast_of_text line).
+
+Section Line.
+  Variable re_ok : str -> bool.
+  Variable re_match : str -> str -> bool.
+
+  Theorem check_line_ref line r hs :
+    let pf := parse_line line in
+    parse_ok line = true ->
+    wf_request r hs ->
+    suffix_mid_label_case (pf_shape pf) (pf_filter pf) (pf_hostname pf) r = false ->
+    (forall f, pf_filter pf = Some f -> s_rx (pf_shape pf) = true ->
+               re_std re_ok re_match (translate f (s_la (pf_shape pf)) (s_ra (pf_shape pf)))
+                      (s_la (pf_shape pf)) (s_ra (pf_shape pf)) (toks f)) ->
+    (check_pattern_sh re_ok re_match (pf_shape pf) (fs_of (pf_filter pf)) (pf_hostname pf) r = true <->
+     ref_match (ast_of_text line) (lower_str (r_url r)) (r_host r) hs).
+  Proof.
+    cbv zeta. intros Hok Hwf Hmid Hre. unfold parse_ok in Hok.
+    apply andb_true_iff in Hok as [Hok H3]. apply andb_true_iff in Hok as [H1 H2].
+    apply past_eqb_eq in H3. rewrite <- H3. apply check_pattern_ref; assumption.
+  Qed.
+End Line.
+
+(* all lines over a small alphabet up to a length bound *)
+Definition ALPHA : list N := [97; 98; 46; 47; 42; 94; 124]%N.     (* a b . / * ^ | *)
+Fixpoint words (n : nat) : list str :=
+  match n with
+  | O => [[]]
+  | S k => [] :: flat_map (fun w => map (fun c => c :: w) ALPHA) (words k)
+  end.
+
+Lemma words_complete n : forall w, length w <= n -> Forall (fun b => In b ALPHA) w -> In w (words n).
+Proof.
+  induction n as [|n IH]; intros w Hl Hf.
+  - destruct w; [left; reflexivity|cbn in Hl; lia].
+  - destruct w as [|c w]; [left; reflexivity|]. right. inversion Hf; subst.
+    apply in_flat_map. exists w. split; [apply IH; [cbn in Hl; lia|assumption]|].
+    apply in_map_iff. exists c. split; [reflexivity|assumption].
+Qed.
+
+Definition parse_claim (line : str) : bool :=
+  implb (nondegenerate_text line && negb (host_right_pipe line)) (parse_ok line).
+
+(* finite domain, bound in the statement: every line of at most 6 symbols over {a b . / * ^ |} *)
+Theorem parse_preserves_ast_bounded line :
+  length line <= 6 -> Forall (fun b => In b ALPHA) line ->
+  nondegenerate_text line = true -> host_right_pipe line = false -> parse_ok line = true.
+Proof.
+  intros Hl Hf Hn Hp.
+  assert (H : forallb parse_claim (words 6) = true) by (vm_compute; reflexivity).
+  rewrite forallb_forall in H. specialize (H line (words_complete 6 line Hl Hf)).
+  unfold parse_claim in H. rewrite Hn, Hp in H. exact H.
+Qed.
+
+(* ---- the refutations in existential form ---- *)
+Lemma host_right_pipe_refuted :
+  exists line url host hs,
+    host_right_pipe line = true /\ nondegenerate_text line = true /\
+    wf_request {| r_url := url; r_host := host |} hs /\
+    cp_line line url host = true /\ ~ ref_match (ast_of_text line) url host hs.
+Proof. eexists; eexists; eexists; eexists; exact host_right_pipe_witness. Qed.
+
+Lemma suffix_mid_label_refuted :
+  exists line url host hs,
+    nondegenerate_text line = true /\ host_right_pipe line = false /\ parse_ok line = true /\
+    wf_request {| r_url := url; r_host := host |} hs /\
+    cp_line line url host = true /\ ~ ref_match (ast_of_text line) url host hs.
+Proof.
+  exists (bs "||ads.net^"), (bs "https://ads.net.xads.net/x"), (bs "ads.net.xads.net"), 8.
+  destruct suffix_mid_label_witness as (A & B & C & D & E & F & G & H & I).
+  split; [exact A|]. split; [exact B|]. split; [vm_compute; reflexivity|].
+  split; [exact F|]. split; [exact H|exact I].
+Qed.
+
+Lemma host_in_url_prefix_refuted :
+  exists line url host hs,
+    nondegenerate_text line = true /\ host_right_pipe line = false /\
+    find_sub host url <> Some hs /\
+    cp_line line url host = false /\ ref_match (ast_of_text line) url host hs.
+Proof.
+  exists (bs "||t/x"), (bs "https://t/x"), (bs "t"), 8.
+  destruct host_in_url_prefix_witness as (A & B & C & D & E).
+  split; [exact A|]. split; [exact B|]. split; [rewrite C; discriminate|]. split; [exact D|exact E].
+Qed.
+
+Theorem check_pattern_ref_mask : forall re_ok re_match mask filter hostname r hs,
+  let sh := shape_of_mask mask in
+  wf_fields sh filter hostname = true ->
+  nondegenerate_fields sh filter hostname = true ->
+  wf_request r hs ->
+  suffix_mid_label_case sh filter hostname r = false ->
+  (forall f, filter = Some f -> s_rx sh = true ->
+             re_std re_ok re_match (translate f (s_la sh) (s_ra sh)) (s_la sh) (s_ra sh) (toks f)) ->
+  (check_pattern re_ok re_match mask (fs_of filter) hostname r = true <->
+   ref_match (ast_of_fields sh filter hostname) (lower_str (r_url r)) (r_host r) hs).
+Proof. intros re_ok re_match mask. exact (check_pattern_ref re_ok re_match (shape_of_mask mask)). Qed.
